@@ -221,42 +221,37 @@ Qed.
 
 (* closing: the only step of any program that puts a file under content-v2 is the rename of the writer's temp file,
    and at that moment the temp file holds exactly the bytes that were hashed *)
-Lemma close_writer_steps f w : WInv f w -> steps_ok csafe (close_writer hash w) f.
+Lemma trim_all w : wtmp_ok w -> all_steps csafe' (trim w).
 Proof.
-  intros Hw. pose proof (WInv_wtmp f w Hw) as Htmp. destruct Hw as [[n Hn] [Hwr [d [Hl Hm]]]].
-  unfold close_writer. rewrite (content_path_computed hash _ _ HL).
-  set (cp := cpath hash (w_algo w) (w_data w)).
+  intros Htmp. unfold trim. destruct (w_map w) as [sz|]; [destruct (w_pos w <? sz)|]; try exact I. safe_step.
+Qed.
+
+Lemma publish_steps f w sri :
+  wtmp_ok w -> lookup f (w_tmp w) = Some (File (w_data w)) ->
+  steps_ok csafe (publish w (cpath hash (w_algo w) (w_data w)) sri) f.
+Proof.
+  intros Htmp Hl. unfold publish. set (cp := cpath hash (w_algo w) (w_data w)).
   cbn [steps_ok]. split; [cbn; intros l0 []|].
-  assert (lookup (snd (exec (MkdirAll (parent cp)) f)) (w_tmp w) = Some (File d)) as Hl1.
+  assert (lookup (snd (exec (MkdirAll (parent cp)) f)) (w_tmp w) = Some (File (w_data w))) as Hl1.
   { rewrite exec_mkdirall. apply mkdirs_keeps. exact Hl. }
   destruct (exec (MkdirAll (parent cp)) f) as [r0 f1]. cbn [snd] in Hl1.
   assert (forall (r : res integrity) g, steps_ok csafe (unlink_quiet (w_tmp w) r) g) as Hunl.
   { intros r g. apply (all_steps_ok csafe'); [apply csafe'_csafe|apply all_unlink_quiet]. }
   destruct r0; try apply Hunl.
-  all: apply steps_ok_bind; split.
-  all: try (destruct (w_map w) as [sz|]; [destruct (w_pos w <? sz)|]; try exact I;
-            apply (all_steps_ok csafe'); [apply csafe'_csafe|safe_step]).
-  all: assert (match fst (run (match w_map w with
-                   | Some sz => if w_pos w <? sz then step_ok (Truncate (w_tmp w) (w_pos w)) else Ret (Ok tt)
-                   | None => Ret (Ok tt) end) f1) with
-               | Ok _ => lookup (snd (run (match w_map w with
-                   | Some sz => if w_pos w <? sz then step_ok (Truncate (w_tmp w) (w_pos w)) else Ret (Ok tt)
-                   | None => Ret (Ok tt) end) f1)) (w_tmp w) = Some (File (w_data w))
-               | _ => True end) as Hafter.
-  all: try (destruct (w_map w) as [sz|];
-       [destruct Hm as [Hlen [Hpos [Htake Hle]]]; destruct (w_pos w <? sz) eqn:Elt;
-        [unfold step_ok; cbn [run]; rewrite (exec_truncate f1 _ d _ Hl1); cbn [run fst snd]; rewrite lookup_update_eq, Htake; reflexivity
-        |cbn [run fst snd]; apply N.ltb_ge in Elt; assert (w_pos w = lenN d) as Epos by lia; rewrite Epos, takeN_all in Htake; rewrite Hl1, Htake; reflexivity]
-       |cbn [run fst snd]; subst d; exact Hl1]).
-  all: destruct (run (match w_map w with
-                   | Some sz => if w_pos w <? sz then step_ok (Truncate (w_tmp w) (w_pos w)) else Ret (Ok tt)
-                   | None => Ret (Ok tt) end) f1) as [rt f2]; cbn [fst snd] in Hafter |- *.
-  all: destruct rt; try apply Hunl.
   all: cbn [steps_ok]; split;
-       [cbn [csafe]; intros _ dd Hdd; rewrite Hafter in Hdd; inversion Hdd; subst dd; exists (w_algo w); reflexivity|].
-  all: destruct (exec (Rename (w_tmp w) (InCache cp)) f2) as [r f3]; destruct r; try exact I.
+       [cbn [csafe]; intros _ dd Hdd; rewrite Hl1 in Hdd; inversion Hdd; subst dd; exists (w_algo w); reflexivity|].
+  all: destruct (exec (Rename (w_tmp w) (InCache cp)) f1) as [r f3]; destruct r; try exact I.
   all: cbn [steps_ok]; split; [cbn; intros l0 []|].
   all: destruct (exec (Exists (InCache cp)) f3) as [r2 f4]; destruct r2 as [| |[|]| | | |]; apply Hunl.
+Qed.
+
+Lemma close_writer_steps f w : WInv f w -> steps_ok csafe (close_writer hash w) f.
+Proof.
+  intros Hw. pose proof (WInv_wtmp f w Hw) as Htmp.
+  unfold close_writer. rewrite (content_path_computed hash _ _ HL).
+  apply steps_ok_bind. split; [apply (all_steps_ok csafe'); [apply csafe'_csafe|apply trim_all; exact Htmp]|].
+  destruct (trim_ok hash f w Hw) as [ft [Htr [Hlt _]]]. rewrite Htr. cbn [fst snd].
+  apply publish_steps; assumption.
 Qed.
 
 Lemma commit_steps f w now : WInv f w -> steps_ok csafe (commit hash w now) f.
